@@ -276,7 +276,7 @@ func genSteps(t *rapid.T, c Case, g *model.Graph) []model.Step {
 		h := rapid.IntRange(1, 3).Draw(t, "nLeadLabels")
 		lead := make([]model.Step, h)
 		for i := range lead {
-			lead[i] = model.S("hasLabel", rapid.SliceOfNDistinct(rapid.SampledFrom(append(append([]string{}, pool...), "nolabel")), 1, 2, rapid.ID[string]).Draw(t, "leadLabel")...)
+			lead[i] = model.S("hasLabel", gen.WithRepeat(t, rapid.SliceOfNDistinct(rapid.SampledFrom(append(append([]string{}, pool...), "nolabel")), 1, 2, rapid.ID[string]).Draw(t, "leadLabel"))...)
 		}
 		steps = append(append([]model.Step{steps[0]}, lead...), steps[1:]...)
 	}
